@@ -740,7 +740,13 @@ bool WPA2Decrypter::decrypt(PDU& pdu) {
         RawPDU* raw = pdu.find_pdu<RawPDU>();
         if (data && raw && data->wep()) {
             // search for the tuple (bssid, src_addr)
-            keys_map::const_iterator it = keys_.find(extract_addr_pair(*data));
+            // The pairwise key belongs to the (receiver, transmitter) pair
+            keys_map::const_iterator it = keys_.find(
+                make_addr_pair(data->addr1(), data->addr2())
+            );
+            if (it == keys_.end()) {
+                it = keys_.find(extract_addr_pair(*data));
+            }
             
             // search for the tuple (bssid, dst_addr) if the above didn't work
             if (it == keys_.end()) {
